@@ -434,4 +434,337 @@ theorem run_pos_le : ∀ (f : Nat) (e : PE) (pos p : Nat) (t : List Tok),
       | outOfFuel => rw [ha] at h; cases h
       | ok p1 t1 => rw [ha] at h; cases h; exact ih _ _ _ _ ha
 
+/-- inside the input, positions stay inside the input -/
+theorem matchLit_le_size : ∀ (cs : List Char) (pos : Nat), pos ≤ inp.size →
+    matchLit inp cs pos = true → pos + cs.length ≤ inp.size := by
+  intro cs
+  induction cs with
+  | nil => intro pos h _; simpa using h
+  | cons c cs ih =>
+    intro pos hle h
+    unfold matchLit at h
+    cases hc : inp[pos]? with
+    | none => rw [hc] at h; cases h
+    | some d =>
+      rw [hc] at h
+      simp only [Bool.and_eq_true] at h
+      have hlt : pos < inp.size := by
+        rcases Array.getElem?_eq_some_iff.mp hc with ⟨hlt, _⟩
+        exact hlt
+      have := ih (pos + 1) (by omega) h.2
+      simp only [List.length_cons]
+      omega
+
+theorem run_le_size : ∀ (f : Nat) (e : PE) (pos p : Nat) (t : List Tok), pos ≤ inp.size →
+    run g f e inp pos = .ok p t → p ≤ inp.size := by
+  intro f
+  induction f with
+  | zero => intro e pos p t _ h; rw [run_zero] at h; cases h
+  | succ f ih =>
+    intro e pos p t hle h
+    cases e with
+    | lit s =>
+      rw [run_lit] at h
+      split at h
+      · rename_i hm
+        cases h
+        have := matchLit_le_size s.toList pos hle hm
+        simpa [String.length_toList] using this
+      · cases h
+    | cls neg rs =>
+      rw [run_cls] at h
+      split at h
+      · rename_i c hc
+        have hlt : pos < inp.size := by
+          rcases Array.getElem?_eq_some_iff.mp hc with ⟨hlt, _⟩
+          exact hlt
+        split at h
+        · cases h; omega
+        · cases h
+      · cases h
+    | any =>
+      rw [run_any] at h
+      split at h
+      · cases h; omega
+      · cases h
+    | act i => rw [run_act] at h; cases h; exact hle
+    | rule name => rw [run_rule] at h; exact ih _ _ _ _ hle h
+    | seq a b =>
+      rw [run_seq] at h
+      cases ha : run g f a inp pos with
+      | fail => rw [ha] at h; cases h
+      | outOfFuel => rw [ha] at h; cases h
+      | ok p1 t1 =>
+        rw [ha] at h
+        simp only at h
+        cases hb : run g f b inp p1 with
+        | fail => rw [hb] at h; cases h
+        | outOfFuel => rw [hb] at h; cases h
+        | ok p2 t2 =>
+          rw [hb] at h
+          cases h
+          exact ih _ _ _ _ (ih _ _ _ _ hle ha) hb
+    | alt a b =>
+      rw [run_alt] at h
+      cases ha : run g f a inp pos with
+      | fail => rw [ha] at h; exact ih _ _ _ _ hle h
+      | outOfFuel => rw [ha] at h; cases h
+      | ok p1 t1 => rw [ha] at h; cases h; exact ih _ _ _ _ hle ha
+    | star a =>
+      rw [run_star] at h
+      cases ha : run g f a inp pos with
+      | fail => rw [ha] at h; cases h; exact hle
+      | outOfFuel => rw [ha] at h; cases h
+      | ok p1 t1 =>
+        rw [ha] at h
+        simp only at h
+        cases hb : run g f (.star a) inp p1 with
+        | fail => rw [hb] at h; cases h
+        | outOfFuel => rw [hb] at h; cases h
+        | ok p2 t2 =>
+          rw [hb] at h
+          cases h
+          exact ih _ _ _ _ (ih _ _ _ _ hle ha) hb
+    | plus a =>
+      rw [run_plus] at h
+      cases ha : run g f a inp pos with
+      | fail => rw [ha] at h; cases h
+      | outOfFuel => rw [ha] at h; cases h
+      | ok p1 t1 =>
+        rw [ha] at h
+        simp only at h
+        cases hb : run g f (.star a) inp p1 with
+        | fail => rw [hb] at h; cases h
+        | outOfFuel => rw [hb] at h; cases h
+        | ok p2 t2 =>
+          rw [hb] at h
+          cases h
+          exact ih _ _ _ _ (ih _ _ _ _ hle ha) hb
+    | opt a =>
+      rw [run_opt] at h
+      cases ha : run g f a inp pos with
+      | fail => rw [ha] at h; cases h; exact hle
+      | outOfFuel => rw [ha] at h; cases h
+      | ok p1 t1 => rw [ha] at h; cases h; exact ih _ _ _ _ hle ha
+    | not a =>
+      rw [run_not] at h
+      cases ha : run g f a inp pos with
+      | fail => rw [ha] at h; cases h; exact hle
+      | outOfFuel => rw [ha] at h; cases h
+      | ok p1 t1 => rw [ha] at h; cases h
+    | and a =>
+      rw [run_and] at h
+      cases ha : run g f a inp pos with
+      | fail => rw [ha] at h; cases h
+      | outOfFuel => rw [ha] at h; cases h
+      | ok p1 t1 => rw [ha] at h; cases h; exact hle
+    | cap a =>
+      rw [run_cap] at h
+      cases ha : run g f a inp pos with
+      | fail => rw [ha] at h; cases h
+      | outOfFuel => rw [ha] at h; cases h
+      | ok p1 t1 => rw [ha] at h; cases h; exact ih _ _ _ _ hle ha
+
+/-! ### inversion: what a successful run of a compound expression consists of -/
+
+theorem run_ok_fuel {f : Nat} {e : PE} {pos p : Nat} {t : List Tok}
+    (h : run g f e inp pos = .ok p t) : ∃ f', f = f' + 1 := by
+  cases f with
+  | zero => rw [run_zero] at h; cases h
+  | succ f' => exact ⟨f', rfl⟩
+
+theorem run_seq_inv {f : Nat} {a b : PE} {pos p : Nat} {t : List Tok}
+    (h : run g (f + 1) (.seq a b) inp pos = .ok p t) :
+    ∃ p1 t1 t2, run g f a inp pos = .ok p1 t1 ∧ run g f b inp p1 = .ok p t2 ∧ t = t1 ++ t2 := by
+  rw [run_seq] at h
+  cases ha : run g f a inp pos with
+  | fail => rw [ha] at h; cases h
+  | outOfFuel => rw [ha] at h; cases h
+  | ok p1 t1 =>
+    rw [ha] at h
+    simp only at h
+    cases hb : run g f b inp p1 with
+    | fail => rw [hb] at h; cases h
+    | outOfFuel => rw [hb] at h; cases h
+    | ok p2 t2 => rw [hb] at h; cases h; exact ⟨p1, t1, t2, rfl, hb, rfl⟩
+
+theorem run_alt_inv {f : Nat} {a b : PE} {pos p : Nat} {t : List Tok}
+    (h : run g (f + 1) (.alt a b) inp pos = .ok p t) :
+    run g f a inp pos = .ok p t ∨ (run g f a inp pos = .fail ∧ run g f b inp pos = .ok p t) := by
+  rw [run_alt] at h
+  cases ha : run g f a inp pos with
+  | fail => rw [ha] at h; exact .inr ⟨rfl, h⟩
+  | outOfFuel => rw [ha] at h; cases h
+  | ok p1 t1 => rw [ha] at h; exact .inl h
+
+theorem run_cap_inv {f : Nat} {a : PE} {pos p : Nat} {t : List Tok}
+    (h : run g (f + 1) (.cap a) inp pos = .ok p t) :
+    ∃ t1, run g f a inp pos = .ok p t1 ∧ t = t1 ++ [.text pos p] := by
+  rw [run_cap] at h
+  cases ha : run g f a inp pos with
+  | fail => rw [ha] at h; cases h
+  | outOfFuel => rw [ha] at h; cases h
+  | ok p1 t1 => rw [ha] at h; cases h; exact ⟨t1, rfl, rfl⟩
+
+theorem run_not_inv {f : Nat} {a : PE} {pos p : Nat} {t : List Tok}
+    (h : run g (f + 1) (.not a) inp pos = .ok p t) : p = pos ∧ t = [] := by
+  rw [run_not] at h
+  cases ha : run g f a inp pos with
+  | fail => rw [ha] at h; cases h; exact ⟨rfl, rfl⟩
+  | outOfFuel => rw [ha] at h; cases h
+  | ok p1 t1 => rw [ha] at h; cases h
+
+theorem run_act_inv {f : Nat} {i : Nat} {pos p : Nat} {t : List Tok}
+    (h : run g (f + 1) (.act i) inp pos = .ok p t) : p = pos ∧ t = [.action i] := by
+  rw [run_act] at h; cases h; exact ⟨rfl, rfl⟩
+
+/-! ### which actions a run can produce -/
+
+/-- no action with a `badAct` index, no reference to a `badRule` -/
+def PE.clean (badAct : Nat → Bool) (badRule : String → Bool) : PE → Bool
+  | .act i => !badAct i
+  | .rule n => !badRule n
+  | .seq a b => a.clean badAct badRule && b.clean badAct badRule
+  | .alt a b => a.clean badAct badRule && b.clean badAct badRule
+  | .star a => a.clean badAct badRule
+  | .plus a => a.clean badAct badRule
+  | .opt a => a.clean badAct badRule
+  | .not a => a.clean badAct badRule
+  | .and a => a.clean badAct badRule
+  | .cap a => a.clean badAct badRule
+  | _ => true
+
+/-- every rule that is not a `badRule` is clean -/
+def cleanGrammar (badAct : Nat → Bool) (badRule : String → Bool) (g : Grammar) : Bool :=
+  g.all (fun r => badRule r.1 || r.2.clean badAct badRule)
+
+theorem ruleBody_clean {badAct : Nat → Bool} {badRule : String → Bool} (name : String)
+    (hg : cleanGrammar badAct badRule g = true) (hn : badRule name = false) :
+    (ruleBody g name).clean badAct badRule = true := by
+  unfold ruleBody
+  induction g with
+  | nil => rfl
+  | cons r rest ih =>
+    obtain ⟨n, b⟩ := r
+    simp only [cleanGrammar, List.all_cons, Bool.and_eq_true, Bool.or_eq_true] at hg
+    simp only [List.lookup]
+    cases hnb : (name == n) with
+    | true =>
+      simp only
+      have : n = name := by simpa using (beq_iff_eq.mp hnb).symm
+      rcases hg.1 with h | h
+      · rw [this, hn] at h; cases h
+      · exact h
+    | false =>
+      simp only
+      exact ih hg.2
+
+theorem run_clean {badAct : Nat → Bool} {badRule : String → Bool}
+    (hg : cleanGrammar badAct badRule g = true) :
+    ∀ (f : Nat) (e : PE) (pos p : Nat) (t : List Tok), e.clean badAct badRule = true →
+      run g f e inp pos = .ok p t → ∀ i, Tok.action i ∈ t → badAct i = false := by
+  intro f
+  induction f with
+  | zero => intro e pos p t _ h; rw [run_zero] at h; cases h
+  | succ f ih =>
+    intro e pos p t hc h i hi
+    cases e with
+    | lit s =>
+      rw [run_lit] at h
+      split at h
+      · cases h; cases hi
+      · cases h
+    | cls neg rs =>
+      rw [run_cls] at h
+      split at h
+      · split at h
+        · cases h; cases hi
+        · cases h
+      · cases h
+    | any =>
+      rw [run_any] at h
+      split at h
+      · cases h; cases hi
+      · cases h
+    | act j =>
+      rw [run_act] at h
+      cases h
+      simp only [List.mem_singleton, Tok.action.injEq] at hi
+      subst hi
+      simpa [PE.clean] using hc
+    | rule name =>
+      rw [run_rule] at h
+      have hn : badRule name = false := by simpa [PE.clean] using hc
+      exact ih _ _ _ _ (ruleBody_clean name hg hn) h i hi
+    | seq a b =>
+      simp only [PE.clean, Bool.and_eq_true] at hc
+      obtain ⟨p1, t1, t2, ha, hb, rfl⟩ := run_seq_inv h
+      rcases List.mem_append.mp hi with h1 | h2
+      · exact ih _ _ _ _ hc.1 ha i h1
+      · exact ih _ _ _ _ hc.2 hb i h2
+    | alt a b =>
+      simp only [PE.clean, Bool.and_eq_true] at hc
+      rcases run_alt_inv h with ha | ⟨_, hb⟩
+      · exact ih _ _ _ _ hc.1 ha i hi
+      · exact ih _ _ _ _ hc.2 hb i hi
+    | star a =>
+      have hc' : a.clean badAct badRule = true := by simpa [PE.clean] using hc
+      rw [run_star] at h
+      cases ha : run g f a inp pos with
+      | fail => rw [ha] at h; cases h; cases hi
+      | outOfFuel => rw [ha] at h; cases h
+      | ok p1 t1 =>
+        rw [ha] at h
+        simp only at h
+        cases hb : run g f (.star a) inp p1 with
+        | fail => rw [hb] at h; cases h
+        | outOfFuel => rw [hb] at h; cases h
+        | ok p2 t2 =>
+          rw [hb] at h
+          cases h
+          rcases List.mem_append.mp hi with h1 | h2
+          · exact ih _ _ _ _ hc' ha i h1
+          · exact ih _ _ _ _ hc hb i h2
+    | plus a =>
+      have hc' : a.clean badAct badRule = true := by simpa [PE.clean] using hc
+      have hcs : (PE.star a).clean badAct badRule = true := by simpa [PE.clean] using hc
+      rw [run_plus] at h
+      cases ha : run g f a inp pos with
+      | fail => rw [ha] at h; cases h
+      | outOfFuel => rw [ha] at h; cases h
+      | ok p1 t1 =>
+        rw [ha] at h
+        simp only at h
+        cases hb : run g f (.star a) inp p1 with
+        | fail => rw [hb] at h; cases h
+        | outOfFuel => rw [hb] at h; cases h
+        | ok p2 t2 =>
+          rw [hb] at h
+          cases h
+          rcases List.mem_append.mp hi with h1 | h2
+          · exact ih _ _ _ _ hc' ha i h1
+          · exact ih _ _ _ _ hcs hb i h2
+    | opt a =>
+      have hc' : a.clean badAct badRule = true := by simpa [PE.clean] using hc
+      rw [run_opt] at h
+      cases ha : run g f a inp pos with
+      | fail => rw [ha] at h; cases h; cases hi
+      | outOfFuel => rw [ha] at h; cases h
+      | ok p1 t1 => rw [ha] at h; cases h; exact ih _ _ _ _ hc' ha i hi
+    | not a =>
+      obtain ⟨_, rfl⟩ := run_not_inv h
+      cases hi
+    | and a =>
+      rw [run_and] at h
+      cases ha : run g f a inp pos with
+      | fail => rw [ha] at h; cases h
+      | outOfFuel => rw [ha] at h; cases h
+      | ok p1 t1 => rw [ha] at h; cases h; cases hi
+    | cap a =>
+      have hc' : a.clean badAct badRule = true := by simpa [PE.clean] using hc
+      obtain ⟨t1, ha, rfl⟩ := run_cap_inv h
+      rcases List.mem_append.mp hi with h1 | h2
+      · exact ih _ _ _ _ hc' ha i h1
+      · simp at h2
+
 end JPV.Peg
